@@ -157,6 +157,9 @@ func (p *Prog) reachCorrelatedFrom(fn *ssa.Function, from *Edge, cut []Edge) map
 	keyOf := map[*ssa.BasicBlock]int{}
 	negOf := map[*ssa.BasicBlock]bool{}
 	keys := map[string]int{}
+	blockKey := map[*ssa.BasicBlock]string{}
+	blockNeg := map[*ssa.BasicBlock]bool{}
+	count := map[string]int{}
 	for _, b := range fn.Blocks {
 		if len(b.Instrs) == 0 {
 			continue
@@ -166,16 +169,48 @@ func (p *Prog) reachCorrelatedFrom(fn *ssa.Function, from *Edge, cut []Edge) map
 			continue
 		}
 		c, neg := stripNot(ifi.Cond)
-		if k, ok := p.predKey(c); ok {
-			id, have := keys[k]
-			if !have {
-				id = len(keys)
-				keys[k] = id
+		k, ok := p.predKey(c)
+		if !ok {
+			// a register compared with nil: `err != nil` and `err == nil` are one predicate
+			if bo, isBo := c.(*ssa.BinOp); isBo && (bo.Op == token.EQL || bo.Op == token.NEQ) {
+				var other ssa.Value
+				switch {
+				case isNilConst(bo.Y):
+					other = bo.X
+				case isNilConst(bo.X):
+					other = bo.Y
+				}
+				if other != nil {
+					if _, isLoad := other.(*ssa.UnOp); !isLoad {
+						k, ok = fmt.Sprintf("nil|%p", other), true
+						if bo.Op == token.NEQ {
+							neg = !neg
+						}
+					}
+				}
 			}
-			if id < 12 {
-				keyOf[b] = id + 1
-				negOf[b] = neg
-			}
+		}
+		if ok {
+			blockKey[b] = k
+			blockNeg[b] = neg
+			count[k]++
+		}
+	}
+	// a predicate that is branched on once cannot correlate with anything: only those tested at least
+	// twice get one of the (few) slots, in block order
+	for _, b := range fn.Blocks {
+		k, ok := blockKey[b]
+		if !ok || count[k] < 2 {
+			continue
+		}
+		id, have := keys[k]
+		if !have {
+			id = len(keys)
+			keys[k] = id
+		}
+		if id < 16 {
+			keyOf[b] = id + 1
+			negOf[b] = blockNeg[b]
 		}
 	}
 	type state struct {
